@@ -1,3 +1,156 @@
-def witness(p): return {"failed": False}
-def replay(p): return {"failed": False}
-def crosscheck(p): return {"failed": False, "evaluations": 0}
+"""Executable oracle for C22: real set-expression evaluation vs Python set algebra."""
+import random
+
+
+def _workload(rnd):
+    tensors = ["A", "B", "C", "D", "E", "F"]
+    n = rnd.randint(1, 4)
+    eins = []
+    prev_out = None
+    for i in range(n):
+        ins = rnd.sample(tensors, rnd.randint(1, 3))
+        if prev_out and prev_out not in ins and rnd.random() < 0.6:
+            ins[0] = prev_out
+        out = rnd.choice([t for t in tensors if t not in ins])
+        pers = [t for t in ins if rnd.random() < 0.2]
+        eins.append((f"E{i}", ins, out, pers))
+        prev_out = out
+    return eins
+
+
+def _yaml(eins):
+    lines = ["workload:", "  rank_sizes: {M: 4, K: 4}", "  bits_per_value: {All: 8}", "  einsums:"]
+    for name, ins, out, pers in eins:
+        lines.append(f"  - name: {name}")
+        lines.append("    tensor_accesses:")
+        for t in ins:
+            p = ", persistent: true" if t in pers else ""
+            lines.append(f"    - {{name: {t}, projection: [m, k]{p}}}")
+        lines.append(f"    - {{name: {out}, projection: [m, k], output: true}}")
+    lines += ["arch:", "  nodes:",
+              "  - !Memory {name: Main, size: inf, area: 1, leak_power: 0, actions: [{name: read, energy: 1, throughput: 1}, {name: write, energy: 1, throughput: 1}]}",
+              "  - !Compute {name: MAC, area: 1, leak_power: 0, actions: [{name: compute, energy: 1, throughput: 1}]}"]
+    return "\n".join(lines)
+
+
+def _named_sets(eins, idx):
+    name, ins, out, pers = eins[idx]
+    U = set(ins) | {out}
+    readers = lambda t: [e for e in eins if t in e[1]]
+    writers = lambda t: [e for e in eins if t == e[2]]
+    env = {"All": set(U), "Tensors": set(U), "Nothing": set(), "Inputs": set(ins), "Outputs": {out},
+           "Intermediates": {t for t in U if readers(t) and writers(t)},
+           "Shared": {t for t in U if len({e[0] for e in readers(t)} | {e[0] for e in writers(t)}) > 1},
+           "Persistent": set(pers)}
+    for t in U:
+        env[t] = {t}
+    return U, env
+
+
+def _rand_expr(rnd, names, depth):
+    if depth == 0 or rnd.random() < 0.25:
+        return rnd.choice(names)
+    r = rnd.random()
+    if r < 0.2:
+        return "~(" + _rand_expr(rnd, names, depth - 1) + ")"
+    op = rnd.choice(["&", "|", "-", "^"])
+    return "(" + _rand_expr(rnd, names, depth - 1) + f" {op} " + _rand_expr(rnd, names, depth - 1) + ")"
+
+
+class _PS:
+    """python-set reference with complement inside a universe"""
+
+    def __init__(self, s, U):
+        self.s, self.U = set(s), U
+
+    def __and__(self, o): return _PS(self.s & o.s, self.U)
+    def __or__(self, o): return _PS(self.s | o.s, self.U)
+    def __sub__(self, o): return _PS(self.s - o.s, self.U)
+    def __xor__(self, o): return _PS(self.s ^ o.s, self.U)
+    def __invert__(self): return _PS(self.U - self.s, self.U)
+
+
+def _spec(rnd):
+    import tempfile, os
+    from accelforge.frontend.spec import Spec
+
+    eins = _workload(rnd)
+    with tempfile.NamedTemporaryFile("w", suffix=".yaml", delete=False) as f:
+        f.write(_yaml(eins))
+        path = f.name
+    try:
+        e = Spec.from_yaml(path)._spec_eval_expressions()
+    finally:
+        os.unlink(path)
+    return eins, e
+
+
+def _check_exprs(rnd, n_exprs):
+    from accelforge.util._setexpressions import eval_set_expression, eval_set_expression_dict
+    from accelforge.frontend.renames import TensorName
+    from accelforge.util.exceptions import EvaluationError
+
+    eins, e = _spec(rnd)
+    ev = 0
+    for idx, ein in enumerate(e.workload.einsums):
+        U, env = _named_sets(eins, idx)
+        table = {r.name: r.source for r in ein.renames}
+        names = list(env)
+        for _ in range(n_exprs):
+            expr = _rand_expr(rnd, names, rnd.randint(1, 4))
+            want = eval(expr, {"__builtins__": {}}, {k: _PS(v, U) for k, v in env.items()}).s
+            got = set(eval_set_expression(expr, table, TensorName, "oracle").instance)
+            ev += 1
+            if got != want:
+                return ev, {"einsums": eins, "einsum": ein.name, "expression": expr, "observed": sorted(got), "required": sorted(want)}
+        # dictionaries keyed by set expressions, with an Other key
+        for _ in range(max(1, n_exprs // 4)):
+            keys = [_rand_expr(rnd, names, rnd.randint(0, 2)) for _ in range(rnd.randint(0, 3))]
+            d = {k: i for i, k in enumerate(dict.fromkeys(keys))}
+            if rnd.random() < 0.8:
+                d["Other"] = -1
+            sets = {k: eval(k, {"__builtins__": {}}, {n_: _PS(v, U) for n_, v in env.items()}).s for k in d if k != "Other"}
+            overlap = any(sets[a] & sets[b] for a in sets for b in sets if a < b)
+            ev += 1
+            try:
+                res = eval_set_expression_dict(dict(d), table, TensorName, "oracle")
+            except EvaluationError:
+                if not overlap:
+                    return ev, {"einsums": eins, "einsum": ein.name, "dict": list(d), "observed": "EvaluationError", "required": "no error (keys are disjoint)"}
+                continue
+            if overlap:
+                return ev, {"einsums": eins, "einsum": ein.name, "dict": list(d), "observed": "accepted", "required": "EvaluationError (overlapping keys)"}
+            assigned = {}
+            for k, inst, v in res:
+                for t in inst:
+                    assigned.setdefault(t, []).append(k)
+            if "Other" in d and (set(assigned) != U or any(len(v) != 1 for v in assigned.values())):
+                return ev, {"einsums": eins, "einsum": ein.name, "dict": list(d), "observed": {t: v for t, v in assigned.items()}, "required": "every tensor of the Einsum assigned exactly once"}
+    return ev, None
+
+
+def witness(p):
+    return {"failed": False}
+
+
+def replay(p):
+    rnd = random.Random(p.get("seed", 0))
+    tot = 0
+    for _ in range(12):
+        ev, bad = _check_exprs(rnd, 12)
+        tot += ev
+        if bad:
+            return {"failed": True, "input": bad, "observed": bad["observed"], "required": bad["required"]}
+    return {"failed": False, "tried": tot}
+
+
+def crosscheck(p):
+    rnd = random.Random(p.get("seed", 0))
+    rounds = 10 if p.get("n", 200) <= 200 else 80
+    tot = 0
+    for _ in range(rounds):
+        ev, bad = _check_exprs(rnd, 10)
+        tot += ev
+        if bad:
+            return {"failed": True, "input": bad, "observed": bad["observed"], "required": bad["required"]}
+    return {"failed": False, "evaluations": tot, "distinct": tot, "rule": "random workloads of 1-4 Einsums; random expression trees (depth <= 4) over All/Tensors/Nothing/Inputs/Outputs/Intermediates/Shared/Persistent/tensor names with & | - ^ ~ evaluated by the real eval_set_expression vs Python sets with complement in the Einsum's tensors; random dictionaries of set-expression keys with an Other key through the real eval_set_expression_dict"}
